@@ -25,23 +25,25 @@ theorem PSt.mug {w0 w : World} {pl : Nat} {x : Pool} (hx : w.pools[pl]? = some x
         ⟨x.cap, x.inUse, h1⟩) ∧
       amounts (abs h1) + (x.holders.tag 1).item.b = amounts (abs x.holders) ∧
       (∀ k, k ≠ (x.holders.tag 1).key → amountOf (abs h1) k = amountOf (abs x.holders) k) ∧
-      (x.holders.tag 1).key - 1 < w0.procs.size := by
+      (x.holders.tag 1).key - 1 < w0.procs.size ∧ 0 < (x.holders.tag 1).item.b := by
   have ok : HoldersOK w0.procs.size x.holders := h.hok
   obtain ⟨h1, hdq, ok1, hsum1, hkeys1, hmem1, _, hoth1, _⟩ := dequeue_holders ok hpos
   obtain ⟨hk1, hk2⟩ := key_pred_succ ok hmem1
-  refine ⟨h1, hdq, ?_, hsum1, hoth1, hk2⟩
+  have hloot : 0 < (x.holders.tag 1).item.b :=
+    ok.pos (KPQ.norm (x.holders.tag 1)) ((HashHeap.mem_abs _ _).2 ⟨1, ⟨Nat.le_refl _, hpos⟩, rfl⟩)
+  refine ⟨h1, hdq, ?_, hsum1, hoth1, hk2, hloot⟩
   intro t prio
   have hu := setHolders_upd hx h1
   have st2 := h.dropKey (p := (x.holders.tag 1).key - 1) hu (fun q => rfl) ok1 (by rw [hk1]; exact hkeys1)
   exact st2.same (sched_same _ _ _ _ _ _)
 
-theorem PoolInv.poolMug : ∀ (fuel : Nat) (w : World) (p : Pid) (pl rem : Nat), PoolInv w → p < w.procs.size →
+theorem PoolInv.poolMug : ∀ (fuel : Nat) (w : World) (p : Pid) (pl rem : Nat), PoolInv w → p < w.procs.size → 0 < rem →
     PoolInv (poolMug fuel w p pl rem).1 := by
   intro fuel
   induction fuel with
-  | zero => intro w p pl rem hi _; exact hi
+  | zero => intro w p pl rem hi _ _; exact hi
   | succ n ih =>
-    intro w p pl rem hi hp
+    intro w p pl rem hi hp hrem
     unfold Sim.poolMug
     split
     · exact hi
@@ -53,7 +55,7 @@ theorem PoolInv.poolMug : ∀ (fuel : Nat) (w : World) (p : Pid) (pl rem : Nat),
         · split
           · have hv := poolView_of_get hx
             have vok := (hi.2 pl _ hv).1
-            obtain ⟨h1, hdq, hst, hsum1, _, hvic⟩ := (PSt.init hi hv).mug hx (by omega)
+            obtain ⟨h1, hdq, hst, hsum1, _, hvic, hloot⟩ := (PSt.init hi hv).mug hx (by omega)
             rw [hdq]
             dsimp only
             generalize hw2 : (removeHeld { w with pools := w.pools.set! pl { x with holders := h1 } }
@@ -61,14 +63,15 @@ theorem PoolInv.poolMug : ∀ (fuel : Nat) (w : World) (p : Pid) (pl rem : Nat),
             split
             · -- all of the victim's units go to the caller; more is needed
               have st3 := hst w2.now (w2.proc ((x.holders.tag 1).key - 1)).prio
-              obtain ⟨h2, st4, hsum2, _, _⟩ := st3.update hi.1 hp (x.holders.tag 1).item.b
+              rename_i hlt
+              obtain ⟨h2, st4, hsum2, _, _⟩ := st3.update hi.1 hp (x.holders.tag 1).item.b hloot
               dsimp only at hsum2
               have hi4 : PoolInv _ := st4.close hi (by
                 have := vok.sum; simp only [Pool.view] at this ⊢; omega) vok.inCap
-              exact ih _ _ _ _ hi4 (by rw [st4.size]; exact hp)
+              exact ih _ _ _ _ hi4 (by rw [st4.size]; exact hp) (by omega)
             · rename_i hlt
               have st3 := hst w2.now (w2.proc ((x.holders.tag 1).key - 1)).prio
-              obtain ⟨h2, st4, hsum2, _, _⟩ := st3.update hi.1 hp rem
+              obtain ⟨h2, st4, hsum2, _, _⟩ := st3.update hi.1 hp rem hrem
               dsimp only at hsum2
               have hget : ∀ w4 : World, poolView w4 pl = some ⟨x.cap, x.inUse, h2⟩ →
                   (w4.pools.getD pl x).inUse = x.inUse := by
@@ -88,8 +91,8 @@ theorem PoolInv.poolMug : ∀ (fuel : Nat) (w : World) (p : Pid) (pl rem : Nat),
 theorem PoolInv.same {w w' : World} (hs : Same w w') (hi : PoolInv w) : PoolInv w' :=
   PoolInv.of_viewSame (ViewSame.of_same hs) hi
 
-theorem PoolInv.poolLoop (w : World) (p : Pid) (pl rem ini : Nat) (pre : Bool) (hi : PoolInv w) (hp : p < w.procs.size) :
-    PoolInv (poolLoop w p pl rem ini pre).1 := by
+theorem PoolInv.poolLoop (w : World) (p : Pid) (pl rem ini : Nat) (pre : Bool) (hi : PoolInv w) (hp : p < w.procs.size)
+    (hrem : 0 < rem) : PoolInv (poolLoop w p pl rem ini pre).1 := by
   unfold Sim.poolLoop
   split
   · exact hi.same (fail_same _ _)
@@ -103,7 +106,7 @@ theorem PoolInv.poolLoop (w : World) (p : Pid) (pl rem ini : Nat) (pre : Bool) (
     split
     · -- enough is available
       rename_i hav
-      obtain ⟨h2, st3, hsum2, _, _⟩ := (((PSt.init hi hv).setInUse (x.inUse + rem)).record pl).update hi.1 hp rem
+      obtain ⟨h2, st3, hsum2, _, _⟩ := (((PSt.init hi hv).setInUse (x.inUse + rem)).record pl).update hi.1 hp rem hrem
       dsimp only [Pool.view] at hsum2
       refine (st3.same (signal_same _ x.guard)).close hi ?_ ?_
       · show x.inUse + rem = amounts (abs h2); omega
@@ -115,15 +118,20 @@ theorem PoolInv.poolLoop (w : World) (p : Pid) (pl rem ini : Nat) (pre : Bool) (
             rem - (x.cap - x.inUse)) else (w, rem)).1 ∧
           (if x.cap - x.inUse > 0 then
           (poolUpdateRecord (recordPool (setPoolInUse w pl (x.inUse + (x.cap - x.inUse))) pl) pl p (x.cap - x.inUse),
-            rem - (x.cap - x.inUse)) else (w, rem)).1.procs.size = w.procs.size := by
+            rem - (x.cap - x.inUse)) else (w, rem)).1.procs.size = w.procs.size ∧
+          0 < (if x.cap - x.inUse > 0 then
+          (poolUpdateRecord (recordPool (setPoolInUse w pl (x.inUse + (x.cap - x.inUse))) pl) pl p (x.cap - x.inUse),
+            rem - (x.cap - x.inUse)) else (w, rem)).2 := by
         split
-        · obtain ⟨h2, st3, hsum2, _, _⟩ :=
-            (((PSt.init hi hv).setInUse (x.inUse + (x.cap - x.inUse))).record pl).update hi.1 hp (x.cap - x.inUse)
+        · rename_i hpos
+          obtain ⟨h2, st3, hsum2, _, _⟩ :=
+            (((PSt.init hi hv).setInUse (x.inUse + (x.cap - x.inUse))).record pl).update hi.1 hp (x.cap - x.inUse) hpos
           dsimp only [Pool.view] at hsum2
-          refine ⟨st3.close hi ?_ ?_, st3.size⟩
+          refine ⟨st3.close hi ?_ ?_, st3.size, ?_⟩
           · show x.inUse + (x.cap - x.inUse) = amounts (abs h2); omega
           · show x.inUse + (x.cap - x.inUse) ≤ x.cap; omega
-        · exact ⟨hi, rfl⟩
+          · show 0 < rem - (x.cap - x.inUse); omega
+        · exact ⟨hi, rfl, hrem⟩
       generalize (if x.cap - x.inUse > 0 then
           (poolUpdateRecord (recordPool (setPoolInUse w pl (x.inUse + (x.cap - x.inUse))) pl) pl p (x.cap - x.inUse),
             rem - (x.cap - x.inUse)) else (w, rem)) = r1 at h1 ⊢
@@ -131,7 +139,7 @@ theorem PoolInv.poolLoop (w : World) (p : Pid) (pl rem ini : Nat) (pre : Bool) (
       dsimp only at h1 ⊢
       have h2 : PoolInv (if pre = true then Sim.poolMug (x.holders.count + 1) w1 p pl rem1 else (w1, some rem1)).1 := by
         split
-        · exact PoolInv.poolMug _ _ _ _ _ h1.1 (by rw [h1.2]; exact hp)
+        · exact PoolInv.poolMug _ _ _ _ _ h1.1 (by rw [h1.2.1]; exact hp) h1.2.2
         · exact h1.1
       generalize (if pre = true then Sim.poolMug (x.holders.count + 1) w1 p pl rem1 else (w1, some rem1)) = r2 at h2 ⊢
       obtain ⟨w2, rem2⟩ := r2
@@ -167,7 +175,7 @@ theorem PoolInv.poolRollback (w : World) (p : Pid) (pl ini : Nat) (hi : PoolInv 
       split
       · rename_i hini hgt
         have hk : p + 1 ∈ keys (abs x.view.holders) := mem_keys_of_amountOf_pos (q := abs x.holders) (by omega)
-        obtain ⟨h', st1, hsum1, _, _⟩ := (PSt.init hi hv).setHeld hk ini
+        obtain ⟨h', st1, hsum1, _, _⟩ := (PSt.init hi hv).setHeld hk ini hini
         dsimp only [Pool.view] at hsum1
         refine (((st1.setInUse (x.inUse - (heldAmount w pl p - ini))).record pl).same (signal_same _ x.guard)).close hi ?_ ?_
         · show x.inUse - (heldAmount w pl p - ini) = amounts (abs h'); omega
@@ -239,7 +247,7 @@ theorem PoolInv.poolRelease (w : World) (p : Pid) (pl n : Nat) (hi : PoolInv w) 
             obtain ⟨s', hrun, _⟩ := HashHeap.remove_abs hok.wf (p + 1) (by simp)
             rw [hrun] at hr; cases hr
         · rename_i hne
-          obtain ⟨h', st1, hsum1, _, _⟩ := (PSt.init hi hv).setHeld hk (heldAmount w pl p - n)
+          obtain ⟨h', st1, hsum1, _, _⟩ := (PSt.init hi hv).setHeld hk (heldAmount w pl p - n) (by omega)
           dsimp only [Pool.view] at hsum1
           exact ⟨h', st1, by omega⟩
       obtain ⟨h', st1, hs1⟩ := h1
@@ -644,62 +652,5 @@ theorem PoolInv.prioSet (w : World) (p q : Pid) (v : Int) (hi : PoolInv w) : Poo
           rw [hsum']; exact vok.sum
         · exact ⟨hi'.same (fail_same _ _), fun q' => by rw [← hh' q']; simp⟩
       · exact ⟨hi', hh'⟩
-
-/-! ### the invariant holds in every reachable state -/
-
-theorem PoolInv.preserved : Preserved PoolInv where
-  same hs h := h.same hs
-  tick _ h := PoolInv.of_viewSame ⟨rfl, fun _ => rfl, fun _ _ => Iff.rfl⟩ h
-  finish w p v st h := PoolInv.finishProc w p v st h
-  clear w p f hf _ h := PoolInv.of_fp (modProc_fp_blocked w p f hf) rfl rfl h
-  exec w p c hp h := by
-    by_cases hm : (cmdMask c).pools = false ∧ (cmdMask c).held = false
-    · exact PoolInv.of_fp (execCmd_fp w p c) hm.1 hm.2 h
-    · cases c <;> simp [cmdMask] at hm
-      case stop q val =>
-        simp only [execCmd]
-        split
-        · exact PoolInv.finishProc _ _ _ _ h
-        · split
-          · exact PoolInv.finishProc _ _ _ _ h
-          · exact h
-      case exit val => simp only [execCmd]; exact PoolInv.finishProc _ _ _ _ h
-      case prioSet q v => exact PoolInv.prioSet _ _ _ _ h
-      case acquire r => exact PoolInv.of_viewSame (resCmd_viewSame w p _ r (Or.inl rfl)) h
-      case preempt r => exact PoolInv.of_viewSame (resCmd_viewSame w p _ r (Or.inr (Or.inl rfl))) h
-      case release r => exact PoolInv.of_viewSame (resCmd_viewSame w p _ r (Or.inr (Or.inr rfl))) h
-      case poolAcquire pl n =>
-        simp only [execCmd]
-        split
-        · exact h
-        · split
-          · exact h
-          · exact PoolInv.poolLoop _ _ _ _ _ _ h hp
-      case poolPreempt pl n =>
-        simp only [execCmd]
-        split
-        · exact h
-        · split
-          · exact h
-          · exact PoolInv.poolLoop _ _ _ _ _ _ h hp
-      case poolRelease pl n => exact PoolInv.poolRelease _ _ _ _ h
-      case recStart kind idx => simp only [execCmd]; exact PoolInv.of_viewSame (setRecording_viewSame _ _ _ _) h
-      case recStop kind idx => simp only [execCmd]; exact PoolInv.of_viewSame (setRecording_viewSame _ _ _ _) h
-  resume w p f sig hp h := by
-    by_cases hm : (frameMask f).pools = false ∧ (frameMask f).held = false
-    · exact PoolInv.of_fp (resumeFrame_fp w p f sig) hm.1 hm.2 h
-    · cases f <;> simp [frameMask] at hm
-      case acquire r => exact PoolInv.of_viewSame (acquireFrame_viewSame w p r sig) h
-      case pool pl rem ini pre =>
-        simp only [resumeFrame]
-        split
-        · exact h
-        · rename_i x hx
-          have h1 : PoolInv (guardWaitLeave w x.guard p sig) := h.same (guardWaitLeave_same _ _ _ _)
-          have hp1 : p < (guardWaitLeave w x.guard p sig).procs.size := by
-            rw [(guardWaitLeave_same w x.guard p sig).2.2.2.2.2.2.2.1]; exact hp
-          split
-          · exact PoolInv.poolRollback _ _ _ _ h1
-          · exact PoolInv.poolLoop _ _ _ _ _ _ h1 hp1
 
 end CimbaModel.Sim
